@@ -26,6 +26,9 @@ class DispatcherBase:
                 f"reconnect() - retrying in {seconds} seconds [{len(inspect.stack())} frames in stack]"
             )
             time.sleep(seconds)
+            if not self.app.keep_running:
+                # close() was called during the wait: the run ends, no new attempt
+                return
             reconnector(reconnecting=True)
         except KeyboardInterrupt as e:
             _logging.info(f"User exited {e}")
